@@ -13,6 +13,10 @@ def is_overflow_refusal(e):
     msg = str(e)
     if isinstance(e, (ValueError, struct.error, AssertionError)) and ("does not fit in format" in msg or "format requires" in msg or "out of range" in msg or "out of bounds" in msg):
         return True
+    import re as _re
+
+    if isinstance(e, AssertionError) and _re.match(r"^\(-?\d+(\.\d+)?, '", msg):
+        return True  # fontTools: (value, type, field, ...) does not fit the field
     c = e.__cause__ or e.__context__
     return bool(c is not None and c is not e and is_overflow_refusal(c))
 
@@ -192,3 +196,61 @@ def check_picosvg_font(built):
         if len(ref) >= 2 or st["gradient_layers"] or any(l.groups for l in ref) or any(l.transformed for l in got):
             stats["nontrivial_glyphs"] += 1
     return problems, stats
+
+
+def built_from_cli(sources, cfg, scratch, contracts_on=True):
+    """Build `sources` ([{'svg','codepoints'}]) with the real CLI (picosvg, write_glyphmap, write_fea, write_font
+    under ninja) and return an object shaped like inproc.Built, taking the *reference* picosvg-normal text from the
+    files the picosvg step left in the build directory.  -> (built | None, info)"""
+    import os
+    from pathlib import Path
+
+    from fontTools.ttLib import TTFont
+
+    from vf.drive import cli, inproc
+
+    inproc.init()
+    from nanoemoji import config as cfgmod
+    from nanoemoji import glyphmap
+
+    root = Path(scratch)
+    src = root / "src"
+    files = []
+    for i, s in enumerate(sources):
+        files.append({"name": inproc.filename_for(tuple(s["codepoints"]), i % 2), "svg": s["svg"]})
+    cli.write_sources(src, files)
+    b = root / "build"
+    flags = ["--build_dir", str(b), "--output_file", "Font.otf" if cfg.get("color_format", "").startswith("cff") else "Font.ttf"]
+    for k, v in cfg.items():
+        if v is None:
+            continue
+        if isinstance(v, bool):
+            flags.append(f"--{k}" if v else f"--no{k}")
+        else:
+            flags += [f"--{k}", str(v)]
+    ev = root / "ev.jsonl"
+    rc, out = cli.nanoemoji(flags + sorted(f["name"] for f in files), src, cli.env_for(events=ev, contracts=contracts_on, ninja_j=4), timeout=600)
+    info = {"rc": rc, "output": out[:2500], "contract_events": [e for e in cli.events(ev) if e["kind"] in ("contracts", "contracts_error")]}
+    if rc != 0:
+        return None, info
+    cwd = os.getcwd()
+    try:
+        os.chdir(b)
+        fcfg = cfgmod.load(b / "Font.toml")
+        maps = glyphmap.parse_csv(str(b / "Font.glyphmap"))
+    finally:
+        os.chdir(cwd)
+    from nanoemoji.write_font import InputGlyph
+
+    by_name = {f["name"]: f for f in files}
+    inputs, picos = [], []
+    for m in maps:
+        p = (b / m.svg_file) if m.svg_file else None
+        picos.append(p.read_text() if p is not None and fcfg.has_picosvgs else None)
+        inputs.append(InputGlyph(m.svg_file, m.bitmap_file, m.codepoints, m.glyph_name, None, None))
+    path = b / Path(fcfg.output_file).name
+    data = path.read_bytes()
+    import io
+
+    font = TTFont(io.BytesIO(data), lazy=False)
+    return inproc.Built(fcfg, inputs, picos, font, data, None), info
